@@ -22,19 +22,45 @@ import vlib
 PID = "C09"
 ALL_VERBS = ["worker", "workerBad", "query", "load", "stopHard", "stopSoft"]
 INVS = ("TypeOK P_C09a_AtMostOneFinal P_C09b_OkMeansAllAcked P_C09d_RightClient "
-        "P_C09e_NoStaleInFlight P_C09_AnswersFollowTasks")
+        "P_C09e_NoStaleInFlight P_C09f_NoAnswerDropped P_C09_AnswersFollowTasks")
 # invariants that stay true under the open deviations (P_C09b is what QueryAlwaysOk/StopAlwaysOk break)
-INVS_CONF = "TypeOK P_C09a_AtMostOneFinal P_C09d_RightClient P_C09e_NoStaleInFlight P_C09_AnswersFollowTasks"
+INVS_CONF = ("TypeOK P_C09a_AtMostOneFinal P_C09d_RightClient P_C09e_NoStaleInFlight P_C09f_NoAnswerDropped "
+             "P_C09_AnswersFollowTasks")
+# State file shapes (MasterHub.tla `Files`), one decimal digit per record: 1 good, 2 refused by the main state,
+# 3 does not parse; 0 = empty file, 9 = no such file. whole(parts) = the well-formed file of `parts` records.
+MISSING, EMPTY = 9, 0
+
+
+# the shapes drive_hub draws from (its --parts is 2)
+TRACE_FILES = [11, 13, 113, 31, 3, 0, 9, 21, 22, 123]
+
+
+def whole(parts):
+    return int("1" * parts)
+
+
+# every class of shape: damaged after k = 0, 1, 2 accepted records (with and without something behind the
+# damage), empty, missing, records the main state refuses (alone, before/after an accepted one, before damage)
+SHAPES_2 = [13, 113, 31, 3, EMPTY, MISSING, 2, 12, 21, 123, 1213]
+# self-tests: deviation switches that model a defect class which is NOT an open finding; TLC must refute each
+# (name, deviations, spec, invariants, property, verbs, reqs, workers)
+SELF_TESTS = [
+    ("LoadErrorKeepsTask", ["LoadErrorKeepsTask"], "Spec", "P_C09a_AtMostOneFinal", None, ["load"], [1], 2),
+    ("CloseBeforeRead", ["CloseBeforeRead"], "Spec", "P_C09f_NoAnswerDropped", None, ["worker", "stopSoft"], [1], 2),
+    ("DeadlineMasked", ["NoTimeoutHang", "DeadlineMasked"], "FairSpec", None, "P_C09c_DeadlinedAnswered",
+     ["worker", "load"], [1, 3], 1),
+]
 
 
 def tset(xs):
     return "{" + ", ".join(('"%s"' % x) if isinstance(x, str) else str(x) for x in xs) + "}"
 
 
-def base_consts(workers, reqs, verbs, t, parts, dup, proc, queue, devs):
-    return ("  Workers = %s\n  Reqs = %s\n  Verbs = %s\n  T = %d\n  Parts = %d\n  MaxDup = %d\n  MaxProc = %d\n"
-            "  MaxQueue = %d\n  Deviations = %s\n" % (tset(range(1, workers + 1)), tset(reqs), tset(verbs), t, parts,
-                                                      dup, proc, queue, tset(devs)))
+def base_consts(workers, reqs, verbs, t, parts, dup, proc, queue, devs, files=None):
+    files = [whole(parts)] if files is None else files
+    return ("  Workers = %s\n  Reqs = %s\n  Verbs = %s\n  T = %d\n  Parts = %d\n  FileCodes = %s\n  MaxDup = %d\n"
+            "  MaxProc = %d\n  MaxQueue = %d\n  Deviations = %s\n" % (
+                tset(range(1, workers + 1)), tset(reqs), tset(verbs), t, parts, tset(files), dup, proc, queue, tset(devs)))
 
 
 def mc_cfg(wd, name, consts, spec="Spec", invs=INVS, prop=None):
@@ -49,11 +75,11 @@ def mc_cfg(wd, name, consts, spec="Spec", invs=INVS, prop=None):
     return path
 
 
-def gen_cfg(wd, name, workers, nreq, v, behaviours, parts, devs):
+def gen_cfg(wd, name, workers, nreq, v, behaviours, parts, devs, files=None):
     path = os.path.join(wd, name + ".cfg")
     with open(path, "w") as f:
         f.write("SPECIFICATION GenSpec\nCONSTANTS\n")
-        f.write(base_consts(workers, range(1, nreq + 1), ALL_VERBS, 1, parts, 9, 9, 9, devs))
+        f.write(base_consts(workers, range(1, nreq + 1), ALL_VERBS, 1, parts, 9, 9, 9, devs, files))
         f.write("  Behaviours = %s\n  V1 = %s\n  V2 = %s\n  V3 = %s\n" % (
             tset(behaviours), tset(v[0]), tset(v[1]), tset(v[2])))
         f.write("INVARIANTS Emit\nCHECK_DEADLOCK FALSE\n")
@@ -65,7 +91,8 @@ def violated(r):
 
 
 def scenario_key(s):
-    return json.dumps([s["nw"], s["plan"], [[e["ev"], e["r"], e["w"], e["p"], e["st"], e.get("fast", False)] for e in s["events"]]])
+    return json.dumps([s["nw"], s["plan"], s.get("file"),
+                       [[e["ev"], e["r"], e["w"], e["p"], e["st"], e.get("fast", False)] for e in s["events"]]])
 
 
 def seq(v):
@@ -101,8 +128,10 @@ def deviation_class(s, r):
 def describe(s):
     ev = " ".join("%s(%s)" % (e["ev"], ",".join(str(e[k]) for k in ("r", "w", "p", "st") if e[k] not in (0, "")))
                   for e in s["events"])
-    return "workers=%d plan=%s script=%s: %s => out=%s ideal=%s" % (
-        s["nw"], seq(s["plan"]), seq(s["script"]), ev, seq(s["final"]["out"]), seq(s["ideal"]))
+    files = [("".join(k[0] for k in f) or "empty") if p == "load" else "-"
+             for p, f in zip(seq(s["plan"]), seq(s.get("file", [])) or [[]] * 9)]
+    return "workers=%d plan=%s files=%s script=%s: %s => out=%s ideal=%s" % (
+        s["nw"], seq(s["plan"]), files, seq(s["script"]), ev, seq(s["final"]["out"]), seq(s["ideal"]))
 
 
 def run(tier, replay=None):
@@ -124,7 +153,21 @@ def run(tier, replay=None):
     jobs.append(("mc_load_parts", mc_cfg(wd, "mc_b3", base_consts(2, [1], ["load"], 1, 2, 0, 0, 2, [])), {}, "hold"))
     jobs.append(("live", mc_cfg(wd, "live", base_consts(2, [1], ALL_VERBS, 1, 1, 1, 0, 2, []), spec="FairSpec",
                                 prop="P_C09c_EveryRequestAnswered"), {}, "hold"))
-    sim = base_consts(2, [1, 2, 3], ["worker", "workerBad", "query", "load"], 2, 2, 1, 1, 2, [])
+    # load-state alone, every class of file shape (damaged after k records, empty, missing, refused records)
+    jobs.append(("mc_load_files", mc_cfg(wd, "mc_files", base_consts(2, [1], ["load"], 1, 2, 0, 0, 2, [],
+                                                                     files=[whole(2)] + SHAPES_2)), {}, "hold"))
+    # a deadline fires whatever else is pending: holds with the open deviations ON (NoTimeoutHang excuses only
+    # the task without deadline itself)
+    jobs.append(("live_deadlined", mc_cfg(wd, "live_dl", base_consts(1, [1, 3], ["worker", "workerBad", "query", "load"],
+                                                                     1, 1, 0, 0, 2, devs, files=[1, 3]),
+                                          spec="FairSpec", invs=None, prop="P_C09c_DeadlinedAnswered"), {}, "hold"))
+    for name, sdevs, sspec, sinv, sprop, sverbs, sreqs, snw in SELF_TESTS:
+        sparts = 2 if "load" in sverbs and snw == 2 else 1
+        jobs.append(("selftest_" + name,
+                     mc_cfg(wd, "self_" + name, base_consts(snw, sreqs, sverbs, 1, sparts, 0, 0, 2, sdevs,
+                                                            files=([whole(2), 13, 3, EMPTY] if sparts == 2 else [1])),
+                            spec=sspec, invs=sinv, prop=sprop), {}, "violate"))
+    sim = base_consts(2, [1, 2, 3], ["worker", "workerBad", "query", "load"], 2, 2, 1, 1, 2, [], files=[whole(2), 13, EMPTY])
     jobs.append(("sim_three_requests", mc_cfg(wd, "sim_c", sim),
                  {"simulate": "num=100000000", "depth": 60, "timeout": (600 if thorough else 25)}, "hold"))
     if thorough:
@@ -157,22 +200,27 @@ def run(tier, replay=None):
     skip = ["skip"]
     n_sim = 1500 if thorough else 100
     gens = [
-        # name, workers, nreq, (V1,V2,V3), behaviours, parts, simulate
-        ("one_request_two_workers", 2, 1, (ALL_VERBS, skip, skip), B9, 2, None),
-        ("one_request_one_worker", 1, 1, (ALL_VERBS, skip, skip), B10, 3, None),
+        # name, workers, nreq, (V1,V2,V3), behaviours, parts, simulate, file shapes (None: the well-formed file)
+        ("one_request_two_workers", 2, 1, (ALL_VERBS, skip, skip), B9, 2, None, None),
+        ("one_request_one_worker", 1, 1, (ALL_VERBS, skip, skip), B10, 3, None, None),
+        # hole C09-12: load-state over every class of file shape x worker behaviours, exhaustive
+        ("load_file_shapes", 2, 1, (["load"], skip, skip), ["ok", "failure", "silent", "close", "okclose", "dupok"], 2, None,
+         SHAPES_2),
+        # a request with a deadline beside a load-state (no deadline) that waits for a silent worker, exhaustive
+        ("deadline_beside_no_deadline", 2, 3, (["load"], skip, ["worker", "query"]), ["ok", "silent"], 1, None, [1]),
         ("two_clients", 2, 3, (["worker", "query", "load"], skip, ["worker", "query", "workerBad"]),
-         ["ok", "failure", "silent", "dupok", "close"], 2, n_sim),
+         ["ok", "failure", "silent", "dupok", "close"], 2, n_sim, [whole(2), 13, EMPTY]),
         ("same_client_twice", 2, 2, (["worker", "query", "load", "workerBad"], ["worker", "query", "stopHard", "stopSoft"], skip),
-         ["ok", "failure", "silent", "close", "late"], 2, n_sim),
+         ["ok", "failure", "silent", "close", "late"], 2, n_sim, [whole(2), 13, 113, 31, EMPTY, MISSING]),
         ("three_workers", 3, 1, (["worker", "query", "load", "stopHard"], skip, skip),
-         ["ok", "failure", "silent", "dupok", "close", "procok"], 2, n_sim),
+         ["ok", "failure", "silent", "dupok", "close", "procok"], 2, n_sim, [whole(2), 13, 12]),
     ]
     if thorough:
         gens.append(("three_requests", 2, 3, (["worker", "query"], ["worker", "load"], ["worker", "query", "load"]),
-                     ["ok", "failure", "silent", "dupok", "okclose", "late"], 2, n_sim))
+                     ["ok", "failure", "silent", "dupok", "okclose", "late"], 2, n_sim, [whole(2), 13, 113, EMPTY]))
     def gen_job(gspec):
-        name, nw, nreq, v, beh, parts, simulate = gspec
-        cfg = gen_cfg(wd, "gen_" + name, nw, nreq, v, beh, parts, devs)
+        name, nw, nreq, v, beh, parts, simulate, files = gspec
+        cfg = gen_cfg(wd, "gen_" + name, nw, nreq, v, beh, parts, devs, files)
         got = []
         kw = {"simulate": "num=%d" % simulate, "depth": 200} if simulate else {}
         g = vlib.tlc("MasterHubGen", cfg, PID, workers=3, timeout=900, want_replay=True,
@@ -194,7 +242,7 @@ def run(tier, replay=None):
     scenarios = {}
     exhaustive_gens = []
     for gf in gen_futures:
-        (name, nw, nreq, v, beh, parts, simulate), g, got = gf.result()
+        (name, nw, nreq, v, beh, parts, simulate, _files), g, got = gf.result()
         if violated(g) or g["error"]:
             raise vlib.ToolError("generator %s failed: %s %s" % (name, violated(g), g["error"]))
         if not simulate:
@@ -271,6 +319,14 @@ def run(tier, replay=None):
                       json.dumps(s) + "\n", name="scenario_%d.ndjson" % s["idx"])
     vlib.log("replay: %d scenarios, %d matched, %d unrealised, %d better than an open deviation" % (
         len(scen), n_match, n_unreal, n_stale))
+    if os.environ.get("C09_DEBUG_GATED"):
+        for s in [s for s in scen if results[s["idx"]].get("gated_batches", 0) > 0 and results[s["idx"]]["status"] == "match"][:400]:
+            vlib.log("GATED-MATCH " + describe(s))
+    n_fast = sum(1 for s in scen if any(e.get("fast") for e in s["events"]))
+    n_gated = sum(1 for s in scen if results[s["idx"]].get("gated_batches", 0) > 0)
+    n_gated_match = sum(1 for s in scen if results[s["idx"]].get("gated_batches", 0) > 0 and results[s["idx"]]["status"] == "match")
+    vlib.log("replay: %d scenarios with a non-quiescent batch (answer + hang-up in one poll turn), %d of them with the "
+             "hub's loop parked (deterministic), %d of those matched" % (n_fast, n_gated, n_gated_match))
     if n_unreal > max(5, len(scen) // 5):
         raise vlib.ToolError("%d of %d scenarios could not be realised in time (machine overloaded?)" % (n_unreal, len(scen)))
     rep.add_samples([describe(s) for s in scen if len(s["events"]) >= 5][:3], 3)
@@ -284,7 +340,7 @@ def run(tier, replay=None):
     tcfg = os.path.join(wd, "trace.cfg")
     with open(tcfg, "w") as f:
         f.write("SPECIFICATION TraceSpec\nCONSTANTS\n")
-        f.write(base_consts(4, range(1, 7), ALL_VERBS, 2, 2, 99, 99, 99, devs))
+        f.write(base_consts(4, range(1, 7), ALL_VERBS, 2, 2, 99, 99, 99, devs, files=TRACE_FILES))
         f.write("CONSTRAINT Track\nINVARIANTS %s\nPOSTCONDITION TraceAccepted\nCHECK_DEADLOCK FALSE\n" % INVS_CONF)
     tr = vlib.tlc_trace("Trace_MasterHub", tcfg, PID, trace, timeout=2400)
     rep.add_tlc(tr)
@@ -383,6 +439,7 @@ def run(tier, replay=None):
     rep.cov["exhaustive"] = all(g[6] is None for g in gens)
     rep.extra["scenarios"] = {"total": len(scen), "matched": n_match, "unrealised": n_unreal,
                               "better_than_open_deviation": n_stale,
+                              "non_quiescent_batches": n_fast, "non_quiescent_batches_gated": n_gated,
                               "per_batch": {b: sum(1 for s in scen if s["batch"] == b) for b in sorted({s["batch"] for s in scen})},
                               "exhaustive_batches": exhaustive_gens}
     rep.extra["trace"] = {"runs": summ["runs"], "events": summ["events"], "accepted": tr["accepted"],
@@ -431,7 +488,7 @@ def run_replay(rep, wd, bins, devs, path):
         tcfg = os.path.join(wd, "trace.cfg")
         with open(tcfg, "w") as f:
             f.write("SPECIFICATION TraceSpec\nCONSTANTS\n")
-            f.write(base_consts(4, range(1, 7), ALL_VERBS, 2, 2, 99, 99, 99, devs))
+            f.write(base_consts(4, range(1, 7), ALL_VERBS, 2, 2, 99, 99, 99, devs, files=TRACE_FILES))
             f.write("CONSTRAINT Track\nINVARIANTS %s\nPOSTCONDITION TraceAccepted\nCHECK_DEADLOCK FALSE\n" % INVS_CONF)
         tr = vlib.tlc_trace("Trace_MasterHub", tcfg, PID, path, timeout=1200)
         rep.add_tlc(tr)
